@@ -1,6 +1,7 @@
 package props
 
 import (
+	"fmt"
 	"testing"
 
 	"verifharness/core"
@@ -96,6 +97,62 @@ func TestC09(t *testing.T) {
 				failRapid(rt, r, caseOf("C09", "container", b, err), err)
 			}
 		})
+		// 3. long containers: the failing call far into a run of like members (traversals that
+		// batch scalars, switch regime after some count, or look ahead over several members)
+		if e.enumStage("long-containers", "arrays and objects of 300 members (compact integers, spaced integers, negative/fraction numbers, short strings, literals, small containers, a mixture) x failing call at 21 positions round 1, 8, 16, 32, 64, 128, 256 and the end x offsets {0, exact, MaxInt} x 3 error kinds x {direct, nested}", true) {
+			elems := [][]string{{"7"}, {" 7 "}, {"12345"}, {"-1.5", "0", "2e3"}, {`"s"`}, {"true", "null"}, {"[1]", "{}"}, {"1", `"x"`, "[2]", "3", "4", `{"a":5}`, "6"}}
+			fails := []int{0, 1, 2, 7, 8, 9, 15, 16, 17, 31, 32, 33, 63, 64, 65, 66, 127, 128, 129, 257, 299}
+			idx := 0
+		long:
+			for ei, el := range elems {
+				for _, obj := range []bool{false, true} {
+					var b []byte
+					if obj {
+						b = append(b, '{')
+					} else {
+						b = append(b, '[')
+					}
+					for i := 0; i < 300; i++ {
+						if i > 0 {
+							b = append(b, ',')
+						}
+						if obj {
+							b = append(b, fmt.Sprintf(`"k%d":`, i)...)
+						}
+						b = append(b, el[i%len(el)]...)
+					}
+					if obj {
+						b = append(b, '}')
+					} else {
+						b = append(b, ']')
+					}
+					kind := b[0]
+					for _, failAt := range fails {
+						for oi, off := range []int64{4, 7, 20} { // pool selectors: 0, exact end, MaxInt
+							idx++
+							if !e.cfg.Mine(idx) {
+								continue
+							}
+							for _, nested := range []bool{false, true} {
+								in := b
+								if nested { // the long container is the first member of an outer array
+									in = append(append([]byte("["), b...), ",1]"...)
+									kind = '['
+								} else {
+									kind = b[0]
+								}
+								ek := int64((ei + oi + failAt) % 4)
+								r.Begin("long-container", in)
+								if err := core.Catch(func() error { return one("long-container", in, kind, failAt, off, ek, nested, ^uint64(0)) }); err != nil {
+									r.Fail(caseOf("C09", "long-container", in, err), err)
+									break long
+								}
+							}
+						}
+					}
+				}
+			}
+		}
 	})
 }
 
